@@ -382,7 +382,10 @@ func genProgram(r *rand.Rand, depth int, random bool) program {
 		g.use("random")
 		sb.WriteString("RETURN { p: @p, q: @q, r: " + body + ", t: RANDOM_TOKEN(8), u: LENGTH(RANDOM_TOKEN(@p % 5 + 1)), v: (FOR i IN 1..3 RETURN RANDOM_TOKEN(4)) }")
 	} else {
-		sb.WriteString("RETURN { p: @p, q: @q, r: " + body + " }")
+		// besides the generated body: node kinds whose per-run state depends on the
+		// run's own parameters (computed member paths, LIMIT operands, DISTINCT
+		// tables, glob patterns) - a cache on the expression tree shows up here
+		sb.WriteString("RETURN { p: @p, q: @q, r: " + body + `, m: [11,22,33,44,55,66,77,88][@p % 8], mm: [[1,2],[3,4],[5,6]][@p % 3][@p % 2], mo: {k0: 1, k1: 2, k2: 3}[CONCAT("k", TO_STRING(@p % 3))], lw: (FOR i IN 1..9 LIMIT @p, 2 RETURN i), dw: (FOR i IN [1, 2, 2, @p, @p] RETURN DISTINCT i), lk: @q LIKE CONCAT(SUBSTRING(@q, 0, 1), "*")` + " }")
 	}
 	var kinds []string
 	for k := range g.kinds {
@@ -470,10 +473,24 @@ func observe(c *compiler.Compiler, progs []program, seqOK []bool, i int, seed in
 	K := 1 + rng.Intn(3)
 	res.Goroutines = G
 	// solo references for the distinct-parameter phase
+	// each reference comes from its own first run of a program compiled afresh on
+	// another compiler: a value cached on the shared program's expression tree by
+	// the runs above cannot leak into the reference
 	refs := make([]outcome, G)
 	for g := 0; g < G; g++ {
-		refs[g] = run(p, 100+g, fmt.Sprintf("g%d", g))
+		fp, ferr := compiler.New().Compile(pr.Text)
+		if ferr != nil {
+			fp = p
+		}
+		refs[g] = run(fp, 100+g, fmt.Sprintf("g%d", g))
 		res.Runs++
+		if !pr.Random {
+			if o := run(p, 100+g, fmt.Sprintf("g%d", g)); o != refs[g] {
+				res.Param = false
+				note(fmt.Sprintf("a later sequential run with @p=%d @q=%q returned %q (err=%v); the first run of a freshly compiled copy with these parameters returns %q (err=%v)", 100+g, fmt.Sprintf("g%d", g), o.Bytes, o.Err, refs[g].Bytes, refs[g].Err))
+			}
+			res.Runs++
+		}
 	}
 	// a goroutine that keeps compiling on the same compiler
 	stop := make(chan struct{})
